@@ -310,10 +310,11 @@ PROPS = {
         level_note="Trusted: wall-clock ordering of harness-side stamps within the stated margins.",
     ),
     "C18": dict(
-        pkg="c18", level="exploration",
+        pkg="c18", level="exploration", needs_binary=True,
         tests=[T("TestC18Codec", Q(40000), Q(250000, timeout=900, shards=8)),
                T("TestC18Comp", Q(1200, timeout=300), Q(6000, timeout=1500, shards=6)),
-               T("TestC18Frame", Q(500, timeout=300), Q(4000, timeout=1500, shards=8))],
+               T("TestC18Frame", Q(500, timeout=300), Q(4000, timeout=1500, shards=8)),
+               T("TestC18Wire", Q(80, timeout=300, shrinktime="20s"), Q(500, timeout=1500, shards=4, shrinktime="60s"))],
         fuzz=[dict(target="FuzzC18", seconds=180)],
         rule="TestC18Codec: a message of any API type (all 60+ message types of regatta.v1 / mvcc.v1 / replication.v1 / maintenance.v1, hot-path types favoured) is generated generically over the protobuf descriptors: every oneof arm or none, "
              "absent vs present optional fields, unknown enum numbers, byte fields at varint length boundaries (127/128, 16383/16384, 70000), nested messages to depth 4, maps; encoded with the registered gRPC codec, decoded into a fresh object "
@@ -321,8 +322,10 @@ PROPS = {
              "and Commands built on recycled pooled objects the way fsm.writeCommand / worker.proposeBatch do. Non-trivial iff a oneof arm is set or a pooled object is involved. TestC18Comp: gzip / snappy / zstd from the gRPC registry, 1-6 payloads "
              "(empty, literals, zeros/random/text of sizes around 4 KiB / 64 KiB boundaries, up to 1 MiB quick / 8 MiB thorough) round-tripped 3x by 1/4/16 goroutines sharing the pooled (de)compressors, drained with one read-to-EOF like gRPC; non-trivial iff "
              ">1 worker and >=2 payloads. TestC18Frame: 0-12 messages (1 B .. 1 MiB) -> snapshot file -> snapshot.Writer over a codec-backed chunk pipe with generated read sizes {1,2,3,7,8,9,15..1 MiB} -> snapshot.Reader -> file -> message-wise read; same "
-             "sequence, same boundaries, EOF after the last; non-trivial iff a chunk size < 8 (boundary inside a length prefix) with >=2 messages. Thorough adds native fuzzing (FuzzC18: arbitrary bytes through the codec for every type).",
-        assumptions=["input buffers are not modified after decoding (regatta does not enable gRPC's receive-buffer reuse, aliasing the input is within the codec's contract)",
+             "sequence, same boundaries, EOF after the last; non-trivial iff a chunk size < 8 (boundary inside a length prefix) with >=2 messages. TestC18Wire: codec, compressors and framing between real gRPC clients and a REAL regatta leader process "
+             "(production server options): 2-12 clients put / transact pairs of one size class at the same moment, each request naming its own table, key and value, optionally compressed - afterwards every table holds exactly what its writers sent; and backup / change / restore of a table "
+             "(long name + tiny content, or several MiB of incompressible values) through the real Maintenance API with the stock backup client - same content, no other table. Thorough adds native fuzzing (FuzzC18: arbitrary bytes through the codec for every type).",
+        assumptions=["in-process codec tests do not modify input buffers after decoding (aliasing the input is within the codec's contract as long as the server does not recycle receive buffers; that combination is what TestC18Wire exercises on the real server)",
                      "compressed readers are drained with a single read-to-EOF as gRPC does", "decoding arbitrary messages into a recycled pooled Command is not done by any regatta code path and is not asserted"],
         technique="round-trip property-based testing over descriptor-driven generated messages, concurrent compressor round trips, framing round trip with generated chunk boundaries, native fuzzing",
         level_text="Randomised exploration of message values (all types), payloads and chunkings with exact round-trip oracles.",
